@@ -36,7 +36,15 @@ fn fixed_patterns() -> &'static Vec<Pattern> {
 
 fn ep_pattern(b: &[u8]) {
     let Ok(s) = std::str::from_utf8(b) else { return };
-    if let Ok(p) = Pattern::new(s) {
+    let compiled = Pattern::new(s);
+    if let Err(e) = &compiled {
+        let _ = e.to_string();
+        if let pkgsrc::PatternError::Dewey(d) = e {
+            #[allow(deprecated)]
+            let _ = std::error::Error::description(d);
+        }
+    }
+    if let Ok(p) = compiled {
         for n in ["", "p", "p-1", "p-1.0nb2", "pp-9", "a-b-c-1", "é-1"] {
             let _ = p.matches(n);
             let _ = p.best_match(n, "p-1");
@@ -78,15 +86,25 @@ fn ep_pkgpath(b: &[u8]) {
         let _ = (p.as_path(), p.as_full_path());
     }
     let _ = PkgPath::from_str(s);
-    if let Ok(d) = Depend::new(s) {
-        let _ = (d.pattern().pattern(), d.pkgpath().as_path());
-        let _ = d.pattern().matches("p-1");
+    match Depend::new(s) {
+        Ok(d) => {
+            let _ = (d.pattern().pattern(), d.pkgpath().as_path());
+            let _ = d.pattern().matches("p-1");
+        }
+        Err(e) => {
+            let _ = e.to_string();
+        }
     }
+    let _ = Depend::from_str(s).is_ok();
 }
 
 fn ep_summary(b: &[u8]) {
     let Ok(s) = std::str::from_utf8(b) else { return };
-    if let Ok(sum) = Summary::from_str(s) {
+    let parsed = Summary::from_str(s);
+    if let Err(e) = &parsed {
+        let _ = e.to_string();
+    }
+    if let Ok(sum) = parsed {
         let _ = sum.to_string();
         let _ = mc_drivers::summary_state(&sum);
         let _ = (sum.is_completed(), sum.pkgbase(), sum.pkgversion(), sum.description_as_str());
@@ -96,9 +114,12 @@ fn ep_summary(b: &[u8]) {
 
 fn ep_stream(b: &[u8]) {
     let mut st = SummaryStream::new();
-    let _ = st.write(b);
+    if let Err(e) = st.write(b) {
+        let _ = e.to_string();
+    }
     let _ = st.to_string();
     let _ = st.entries().len();
+    let _ = st.entries_mut().len();
     let mut st = SummaryStream::new();
     let (c1, c2) = (b.len() / 3, 2 * b.len() / 3);
     for chunk in [&b[..c1], &b[c1..c2], &b[c2..]] {
@@ -115,7 +136,9 @@ fn ep_plist(b: &[u8]) {
         let _ = (p.pkgname(), p.display(), p.depends(), p.build_depends(), p.conflicts(), p.pkgdirs(), p.pkgrmdirs());
         let _ = (p.files(), p.files_prefixed(), p.install_cmds().len(), p.uninstall_cmds().len(), p.is_preserve());
     }
-    let _ = PlistEntry::from_bytes(b);
+    if let Err(e) = PlistEntry::from_bytes(b) {
+        let _ = e.to_string();
+    }
 }
 
 fn ep_distinfo(b: &[u8]) {
@@ -172,7 +195,9 @@ fn ep_failing_readers(b: &[u8]) {
             let r = ThenFail { data: &b[..cut], pos: 0, kind };
             let _ = ScanIndex::from_reader(std::io::BufReader::with_capacity(16, r));
             let mut r = ThenFail { data: &b[..cut], pos: 0, kind };
-            let _ = Digest::SHA1.hash_file(&mut r);
+            if let Err(e) = Digest::SHA1.hash_file(&mut r) {
+                let _ = (e.to_string(), std::error::Error::source(&e).is_some());
+            }
             let mut r = ThenFail { data: &b[..cut], pos: 0, kind };
             let _ = Digest::MD5.hash_patch(&mut r);
             let mut r = ThenFail { data: &b[..cut], pos: 0, kind };
@@ -184,9 +209,14 @@ fn ep_failing_readers(b: &[u8]) {
 
 fn ep_digest_name(b: &[u8]) {
     let Ok(s) = std::str::from_utf8(b) else { return };
-    if let Ok(d) = Digest::from_str(s) {
-        let _ = d.to_string();
-        let _ = d.hash_str(s);
+    match Digest::from_str(s) {
+        Ok(d) => {
+            let _ = d.to_string();
+            let _ = d.hash_str(s);
+        }
+        Err(e) => {
+            let _ = (e.to_string(), e == e, std::error::Error::source(&e).is_some());
+        }
     }
 }
 
@@ -217,6 +247,8 @@ fn ep_metadata(b: &[u8]) {
     }
     let _ = m.is_valid();
     let _ = (m.comment(), m.contents(), m.desc(), m.size_all(), m.size_pkg());
+    let _ = (m.build_info(), m.build_version(), m.deinstall(), m.display(), m.install());
+    let _ = (m.installed_info(), m.mtree_dirs(), m.preserve(), m.required_by());
     let _ = MetadataEntry::from_filename(s);
 }
 
